@@ -180,7 +180,15 @@ class MetadataManager:
                     )
 
                 # PHASE 2: Prepare new version
-                new_metadata.last_updated_ms = int(datetime.now().timestamp() * 1000)
+                # The OCC check above compares last_updated_ms, so every committed
+                # version must carry a stamp its predecessor did not. On a coarse,
+                # frozen or stepped-back clock two metadata-only commits (same
+                # current_snapshot_id) would otherwise be indistinguishable and the
+                # second would silently undo the first.
+                now_ms = int(datetime.now().timestamp() * 1000)
+                if current is not None and now_ms <= current.last_updated_ms:
+                    now_ms = current.last_updated_ms + 1
+                new_metadata.last_updated_ms = now_ms
 
                 # Read current version (and, on CAS backends, the hint's ETag so
                 # the commit point below can be a true compare-and-swap).
